@@ -101,6 +101,7 @@ static bool parseStep(const std::vector<std::string> &t, int lineNo, Step &st, s
                 else if (m.compare(0, 3, "at:") == 0) { st.seg = SEG_AT; std::istringstream is(m.substr(3)); std::string x; while (std::getline(is, x, ',')) st.segAt.push_back(U(x)); }
             } else if (t[i] == "max" && i + 1 < t.size()) st.segMax = U(t[++i]);
             else if (t[i] == "pace" && i + 2 < t.size()) { st.paceLo = U(t[i + 1]); st.paceHi = U(t[i + 2]); i += 2; }
+            else if (t[i] == "subst") st.subst = true;
         }
     }
     else if (k == "expect") {
@@ -124,6 +125,7 @@ static bool parseStep(const std::vector<std::string> &t, int lineNo, Step &st, s
     else if (k == "readstop") st.kind = ST_READSTOP;
     else if (k == "readresume") st.kind = ST_READRESUME;
     else if (k == "next") st.kind = ST_NEXT;
+    else if (k == "set") { if (!need(3)) return false; st.kind = ST_SET; st.flag = t[1] + "=" + t[2]; }
     else if (k == "signal") { if (!need(2)) return false; st.kind = ST_SIGNAL; st.sig = atoi(t[1].c_str()); }
     else { err = "line " + std::to_string(lineNo) + ": unknown step " + k; return false; }
     return true;
@@ -213,6 +215,7 @@ bool parseScenario(const std::string &path, Scenario &sc, std::string &err)
                 Rule r; r.id = t.at(1);
                 for (size_t i = 2; i + 1 < t.size(); i += 2) {
                     if (t[i] == "max") r.maxUses = atoi(t[i + 1].c_str()); else if (t[i] == "has") r.has.push_back(parsePayload(t[i + 1])); else if (t[i] == "nothas") r.nothas.push_back(parsePayload(t[i + 1]));
+                    else if (t[i] == "when") { size_t eq = t[i + 1].find('='); r.when.emplace_back(t[i + 1].substr(0, eq), eq == std::string::npos ? "" : t[i + 1].substr(eq + 1)); }
                 }
                 s.rules.push_back(r); steps = &s.rules.back().steps; inSub = true;
             } else { err = "line " + std::to_string(ln) + ": unknown server directive " + k; return false; }
